@@ -42,18 +42,28 @@ func ScratchBase() string {
 	return "/var/tmp/verif-scratch"
 }
 
+// CacheDir is the Go build cache of everything the machinery compiles. Every generated subject leaves
+// unique objects behind (tens of GB per day of thorough runs), so the cache is the machinery's own and
+// the driver empties it when it has grown too large (see cmd/vdriver cacheHygiene).
+func CacheDir() string {
+	if r := os.Getenv("VERIF_GOCACHE"); r != "" {
+		return r
+	}
+	return "/var/tmp/verif-gocache"
+}
+
 // baseEnv is the environment for every child process: offline, module mode.
 func baseEnv(extra ...string) []string {
 	env := []string{}
 	for _, kv := range os.Environ() {
 		k := kv[:strings.Index(kv, "=")]
 		switch k {
-		case "GOFLAGS", "GOPROXY", "GOSUMDB", "GOTOOLCHAIN", "GO111MODULE", "GOWORK", "GOPATH":
+		case "GOFLAGS", "GOPROXY", "GOSUMDB", "GOTOOLCHAIN", "GO111MODULE", "GOWORK", "GOPATH", "GOCACHE":
 			continue
 		}
 		env = append(env, kv)
 	}
-	env = append(env, "GOFLAGS=-mod=mod", "GOPROXY=off", "GOSUMDB=off", "GOTOOLCHAIN=local", "GOWORK=off")
+	env = append(env, "GOFLAGS=-mod=mod", "GOPROXY=off", "GOSUMDB=off", "GOTOOLCHAIN=local", "GOWORK=off", "GOCACHE="+CacheDir())
 	return append(env, extra...)
 }
 
@@ -277,12 +287,12 @@ func BuildEnv() []string {
 	for _, kv := range os.Environ() {
 		k := kv[:strings.Index(kv, "=")]
 		switch k {
-		case "GOFLAGS", "GOTOOLCHAIN", "GOWORK", "GOSUMDB":
+		case "GOFLAGS", "GOTOOLCHAIN", "GOWORK", "GOSUMDB", "GOCACHE":
 			continue
 		}
 		env = append(env, kv)
 	}
-	return append(env, "GOFLAGS=-mod=vendor", "GOPROXY=off", "GOTOOLCHAIN=auto", "GOWORK=off")
+	return append(env, "GOFLAGS=-mod=vendor", "GOPROXY=off", "GOTOOLCHAIN=auto", "GOWORK=off", "GOCACHE="+CacheDir())
 }
 
 // ChildEnv is the environment for goderive and go tool child processes.
